@@ -76,6 +76,15 @@ fn arr<T: std::fmt::Debug, const N: usize>(v: Vec<T>) -> [T; N] {
     v.try_into().expect("harness: wrong number of elements")
 }
 
+/// the configuration as `ConfigClone::config()` and as `ConfigRef::config_ref()` report it: rendered once if they agree
+macro_rules! cfg_both {
+    ($s:expr, $c:ident => $e:expr) => {{
+        let a = { let owned = $s.config(); let $c = &owned; $e };
+        let b = { let $c = $s.config_ref(); $e };
+        if a == b { a } else { format!("CONFIG-MISMATCH clone=[{}] ref=[{}]", a, b) }
+    }};
+}
+
 /// object-safe view of a filter instance
 pub trait Inst {
     fn f(&mut self, a: &[Val]) -> String;
@@ -233,7 +242,7 @@ macro_rules! conv_fk {
                 }
             }
             fn cfg_(&mut self) -> String {
-                render_list(self.config_ref().coefficients.iter())
+                cfg_both!(self, c => render_list(c.coefficients.iter()))
             }
         });
     };
@@ -320,8 +329,7 @@ impl FK for Kalman<Q> {
         }
     }
     fn cfg_(&mut self) -> String {
-        let c = self.config();
-        format!("{} {} {} {} {}", c.r.r(), c.q.r(), c.a.r(), c.b.r(), c.c.r())
+        cfg_both!(self, c => format!("{} {} {} {} {}", c.r.r(), c.q.r(), c.a.r(), c.b.r(), c.c.r()))
     }
 }
 
@@ -335,8 +343,7 @@ fk!([] AlphaBeta<Q>, Q => Q {
         }
     }
     fn cfg_(&mut self) -> String {
-        let c = self.config();
-        format!("{} {}", c.alpha.r(), c.beta.r())
+        cfg_both!(self, c => format!("{} {}", c.alpha.r(), c.beta.r()))
     }
 });
 fk!([] Ema<Q>, Q => Q {
@@ -345,7 +352,7 @@ fk!([] Ema<Q>, Q => Q {
         match field { "mean" => st.mean.r(), _ => "unsupported".to_string() }
     }
     fn cfg_(&mut self) -> String {
-        self.config().inverse_width.r()
+        cfg_both!(self, c => c.inverse_width.r())
     }
 });
 fk!([] Emed<Q>, Q => Q {
@@ -354,13 +361,12 @@ fk!([] Emed<Q>, Q => Q {
         match field { "median" => st.median.r(), _ => "unsupported".to_string() }
     }
     fn cfg_(&mut self) -> String {
-        let c = self.config();
-        format!("{} {} {}", c.pre.inverse_width.r(), c.mid.r(), c.post.inverse_width.r())
+        cfg_both!(self, c => format!("{} {} {}", c.pre.inverse_width.r(), c.mid.r(), c.post.inverse_width.r()))
     }
 });
 fk!([] Emv<Q>, Q => signalo_filters::mean::exp::mean_variance::Output<Q> {
     fn cfg_(&mut self) -> String {
-        self.config().inverse_width.r()
+        cfg_both!(self, c => c.inverse_width.r())
     }
 });
 
@@ -370,8 +376,7 @@ macro_rules! classify_fk {
     ($t:ty) => {
         fk!([] Threshold<$t, Q>, $t => Q {
             fn cfg_(&mut self) -> String {
-                let c = self.config();
-                format!("{} {}", c.threshold.r(), render_list(c.outputs.iter()))
+                cfg_both!(self, c => format!("{} {}", c.threshold.r(), render_list(c.outputs.iter())))
             }
         });
         fk!([] Schmitt<$t, Q>, $t => Q {
@@ -380,8 +385,7 @@ macro_rules! classify_fk {
                 match field { "on" => st.on.r(), _ => "unsupported".to_string() }
             }
             fn cfg_(&mut self) -> String {
-                let c = self.config();
-                format!("{} {} {}", c.thresholds[0].r(), c.thresholds[1].r(), render_list(c.outputs.iter()))
+                cfg_both!(self, c => format!("{} {} {}", c.thresholds[0].r(), c.thresholds[1].r(), render_list(c.outputs.iter())))
             }
         });
         fk!([] Slopes<$t, Q>, $t => Q {
@@ -390,12 +394,12 @@ macro_rules! classify_fk {
                 match field { "input" => st.input.r(), _ => "unsupported".to_string() }
             }
             fn cfg_(&mut self) -> String {
-                render_list(self.config().outputs.iter())
+                cfg_both!(self, c => render_list(c.outputs.iter()))
             }
         });
         fk!([] Peaks<$t, Q>, $t => Q {
             fn cfg_(&mut self) -> String {
-                render_list(self.config().outputs.iter())
+                cfg_both!(self, c => render_list(c.outputs.iter()))
             }
         });
     };
@@ -409,13 +413,12 @@ fk!([] Debounce<Q, Q>, Q => Q {
         match field { "count" => st.count.r(), _ => "unsupported".to_string() }
     }
     fn cfg_(&mut self) -> String {
-        let c = self.config();
-        format!("{} {} {}", c.threshold, c.predicate.r(), render_list(c.outputs.iter()))
+        cfg_both!(self, c => format!("{} {} {}", c.threshold, c.predicate.r(), render_list(c.outputs.iter())))
     }
 });
 fk!([] Peaks<Slope, Q>, Slope => Q {
     fn cfg_(&mut self) -> String {
-        render_list(self.config().outputs.iter())
+        cfg_both!(self, c => render_list(c.outputs.iter()))
     }
 });
 
